@@ -169,6 +169,6 @@ IndexInv ==
 
 GenUnique == \A j, k \in Held : j # k => primary[j].gen # primary[k].gen
 
-Abs == INSTANCE Cache WITH present <- Held, order <- lru
+Abs == INSTANCE Cache WITH present <- Held, order <- lru, Shared <- FALSE
 Refines == Abs!Spec
 =============================================================================
